@@ -101,16 +101,24 @@ def gen_cases(ctx, sets, layouts):
             if src is None:
                 continue
             out.append(('%s#%d/%s' % (label, k, lay), src, b['deriv'], True))
+            if any(x['t'] in ('unop', 'binop') for x in b['toks']) and k % 2 == 0:
+                rs = ('minus', 'dots', 'tilde')[(k // 2) % 3]
+                lay2 = 'spaced' if lay == 'tight' else lay
+                src2 = progs.render(b, lay2, random.Random(ctx.seed * 7919 + k), respell=rs)
+                if src2 is not None and src2 != src:
+                    out.append(('%s#%d/%s/%s' % (label, k, lay2, rs), src2, b['deriv'], True))
     return out
 
 
 def gen_sets(ctx):
     if ctx.quick:
         return [('all<=5', progs.generate(ctx, 'all', 5)),
+                ('expr<=6', progs.generate(ctx, 'expr', 6)),
                 ('blocks<=9', progs.generate(ctx, 'blocks', 9)),
                 ('shortif<=13', progs.generate(ctx, 'shortif', 13)),
                 ('sim<=40', progs.generate(ctx, 'all', 40, max_depth=4, simulate=300))]
     return [('all<=6', progs.generate(ctx, 'all', 6)),
+            ('expr<=8', progs.generate(ctx, 'expr', 8)),
             ('skeleton<=8', progs.generate(ctx, 'skeleton', 8)),
             ('blocks<=11', progs.generate(ctx, 'blocks', 11)),
             ('shortif<=15', progs.generate(ctx, 'shortif', 15)),
